@@ -76,7 +76,7 @@ theorem quiesce_same (g : Game P) (ex : Explore) :
 /-- One node of `quiesce` with fuel left that stayed live, given the contract one level down. -/
 theorem quiesce_succ_tt {g : Game P} (hev : EvalOk g) (ex : Explore) {Inv : TTState → Prop} (K fuel : Nat)
     (hf : K + fuel + 1 ≤ 127)
-    (IH : RecTT Inv (K + fuel) (Q g ex fuel) (fun _ _ _ => True) (wrapQ (quiesce g ex fuel)))
+    (IH : RecTT Inv (fun _ => True) (K + fuel) (Q g ex fuel) (fun _ _ _ => True) (wrapQ (quiesce g ex fuel)))
     (p : P) (a b : Score) (st : SState) (hinv : Inv st.tt) (ha : okN (K + fuel + 1) a) (hb : okN (K + fuel + 1) b) :
     ∀ r, quiesce g ex (fuel + 1) p a b st = r → Live r.2 →
       okN (K + fuel + 1) r.1 ∧
@@ -110,7 +110,8 @@ theorem quiesce_succ_tt {g : Game P} (hev : EvalOk g) (ex : Explore) {Inv : TTSt
     have hperm := ABHeap.heapOrder_perm (g.moves p) ex.prio
     rw [quiesceLoop_eq g ex _ p b _ _ []] at hr
     obtain ⟨hm, _, hpost⟩ := abLoop_tt (g := g) (ex := ex) (p := p) IH (by omega) (b := b)
-      (heapOrder (g.moves p) ex.prio) (Score.max a (heuristicScore (g.eval p))) [] false
+      (heapOrder (g.moves p) ex.prio) (fun _ _ _ _ _ => trivial)
+      (Score.max a (heuristicScore (g.eval p))) [] false
       { tick st with nodes := (tick st).nodes + 1 } hinv (fun _ => ⟨ha1, hb⟩) _ rfl
     generalize abLoop g ex (wrapQ (quiesce g ex fuel)) p b (heapOrder (g.moves p) ex.prio)
       (Score.max a (heuristicScore (g.eval p))) [] false
@@ -154,13 +155,13 @@ theorem quiesce_succ_tt {g : Game P} (hev : EvalOk g) (ex : Explore) {Inv : TTSt
 /-- Node contract of `quiesce` under any table invariant and with cancellation. -/
 theorem quiesce_recTT {g : Game P} (hev : EvalOk g) (ex : Explore) (Inv : TTState → Prop) (K : Nat) :
     ∀ fuel, K + fuel ≤ 127 →
-      RecTT Inv (K + fuel) (Q g ex fuel) (fun _ _ _ => True) (wrapQ (quiesce g ex fuel)) := by
+      RecTT Inv (fun _ => True) (K + fuel) (Q g ex fuel) (fun _ _ _ => True) (wrapQ (quiesce g ex fuel)) := by
   intro fuel
   induction fuel with
   | zero =>
     intro _
     refine ⟨fun c => okN_mono okN_zero (by omega), ?_⟩
-    intro c a b st hinv _
+    intro c a b st _ hinv _
     have hs := quiesce_same g ex 0 c a b st
     refine ⟨hs.2, by simp only [wrapQ]; rw [hs.1]; exact hinv, fun _ => ?_⟩
     simp only [wrapQ, quiesce, Q]
@@ -169,7 +170,7 @@ theorem quiesce_recTT {g : Game P} (hev : EvalOk g) (ex : Explore) (Inv : TTStat
     intro hf
     have IH := ih (by omega)
     refine ⟨fun c => okN_mono (Q_ok hev ex (fuel + 1) c (by omega)) (by omega), ?_⟩
-    intro p a b st hinv hab
+    intro p a b st _ hinv hab
     have hs := quiesce_same g ex (fuel + 1) p a b st
     refine ⟨hs.2, by simp only [wrapQ]; rw [hs.1]; exact hinv, fun hlive => ?_⟩
     simp only [wrapQ] at hlive ⊢
